@@ -38,6 +38,17 @@ fn norm<T: ToTokens>(t: &T) -> String {
 struct ImplFns {
     cur: Option<String>,
     out: Vec<(String, String, syn::Block)>,
+    /// parallel to `out`: the names bound by the function's parameters
+    params: Vec<Vec<String>>,
+}
+fn sig_idents(sig: &syn::Signature) -> Vec<String> {
+    let mut p = PatIdents(vec![]);
+    for a in &sig.inputs {
+        if let syn::FnArg::Typed(t) = a {
+            p.visit_pat(&t.pat);
+        }
+    }
+    p.0
 }
 impl<'ast> Visit<'ast> for ImplFns {
     fn visit_item_impl(&mut self, i: &'ast syn::ItemImpl) {
@@ -56,11 +67,13 @@ impl<'ast> Visit<'ast> for ImplFns {
             f.sig.ident.to_string(),
             f.block.clone(),
         ));
+        self.params.push(sig_idents(&f.sig));
         syn::visit::visit_impl_item_fn(self, f);
     }
     fn visit_item_fn(&mut self, f: &'ast syn::ItemFn) {
         self.out
             .push((String::new(), f.sig.ident.to_string(), (*f.block).clone()));
+        self.params.push(sig_idents(&f.sig));
         syn::visit::visit_item_fn(self, f);
     }
 }
@@ -215,7 +228,7 @@ fn into_func_keeps_arc(
         }
     }
     // an `into_func` written outside the macro
-    let mut all = ImplFns { cur: None, out: vec![] };
+    let mut all = ImplFns { cur: None, out: vec![], params: vec![] };
     all.visit_file(cg);
     for (imp, name, block) in &all.out {
         if name == "into_func" && imp.starts_with("TypedFunc") {
@@ -267,6 +280,8 @@ struct Mentions<'a> {
     fields: Vec<String>,
     methods: Vec<String>,
     idents: Vec<String>,
+    /// multi-segment paths (`crate::x::f`): items, never locals
+    items: Vec<String>,
 }
 impl<'ast> Visit<'ast> for Mentions<'_> {
     fn visit_expr_field(&mut self, f: &'ast syn::ExprField) {
@@ -287,6 +302,8 @@ impl<'ast> Visit<'ast> for Mentions<'_> {
     fn visit_expr_path(&mut self, p: &'ast syn::ExprPath) {
         if let Some(i) = p.path.get_ident() {
             self.idents.push(i.to_string());
+        } else {
+            self.items.push(norm(&p.path));
         }
     }
 }
@@ -405,17 +422,18 @@ fn data_holders(cg: &syn::File, all: &ImplFns, notes: &mut Vec<String>) -> Resul
     };
     let builder_method_fields = |m: &str| -> Option<Vec<String>> {
         let hit = all.out.iter().find(|(i, n, _)| n == m && i == "ModuleBuilder")?;
-        let mut me = Mentions { base: "self", fields: vec![], methods: vec![], idents: vec![] };
+        let mut me = Mentions { base: "self", fields: vec![], methods: vec![], idents: vec![], items: vec![] };
         me.visit_block(&hit.2);
         Some(me.fields)
     };
 
     let mut out: Vec<&'static str> = vec![];
     let mut n_sites = 0;
-    for (imp, name, block) in &all.out {
+    for (fn_idx, (imp, name, block)) in all.out.iter().enumerate() {
         if !imp.starts_with("FuncGen") {
             continue;
         }
+        let fn_params = &all.params[fn_idx];
         let mut arms = Arms(vec![]);
         arms.visit_block(block);
         // scopes: each instruction arm; and the function as a whole for what is outside arms
@@ -458,6 +476,8 @@ fn data_holders(cg: &syn::File, all: &ImplFns, notes: &mut Vec<String>) -> Resul
                 // provenance: follow locals (≤ 4 levels) to builder fields
                 let mut fields: Vec<String> = vec![];
                 let mut from_ir = false;
+                let mut from_item = false; // a function / static item named by path
+                let mut unknown: Option<String> = None;
                 // the locals visible at the site: those bound before the statement that contains it
                 let vt = norm(&v);
                 let site = locals
@@ -467,7 +487,7 @@ fn data_holders(cg: &syn::File, all: &ImplFns, notes: &mut Vec<String>) -> Resul
                     .unwrap_or(locals.0.len());
                 let mut work = vec![(v.clone(), site)];
                 while let Some((e, limit)) = work.pop() {
-                    let mut me = Mentions { base: "self.module", fields: vec![], methods: vec![], idents: vec![] };
+                    let mut me = Mentions { base: "self.module", fields: vec![], methods: vec![], idents: vec![], items: vec![] };
                     me.visit_expr(&e);
                     for f in me.fields {
                         if !fields.contains(&f) {
@@ -489,20 +509,41 @@ fn data_holders(cg: &syn::File, all: &ImplFns, notes: &mut Vec<String>) -> Resul
                     for id in me.idents {
                         if let Some(j) = locals.0[..limit].iter().rposition(|(ids, _)| ids.contains(&id)) {
                             work.push((locals.0[j].1.clone(), j));
-                        } else if bound.contains(&id) && limit == site {
-                            // named directly in the baked expression (not reached through a local:
-                            // bytes copied out of the instruction into host memory are host data)
-                            from_ir = true;
+                        } else if bound.contains(&id) {
+                            // named directly in the baked expression: an immediate of the instruction;
+                            // reached through a local: bytes copied out of the instruction into host
+                            // memory are host data of unknown owner
+                            if limit == site {
+                                from_ir = true;
+                            } else {
+                                unknown = Some(id.clone());
+                            }
+                        } else if fn_params.contains(&id) || id == "self" {
+                            if id != "self" {
+                                unknown = Some(id.clone());
+                            }
+                        } else if id.chars().next().map(|c| c.is_lowercase()).unwrap_or(false) && limit == site {
+                            // not a local, not a parameter, not bound by the arm: an item (fn / static)
+                            from_item = true;
                         }
+                    }
+                    if limit == site && !me.items.is_empty() {
+                        from_item = true;
                     }
                 }
                 // fields that only describe the target, not data
                 fields.retain(|f| f != "isa");
-                if fields.is_empty() {
+                if fields.is_empty() && unknown.is_none() {
                     if from_ir {
                         notes.push(format!("{label}: `{}` is an immediate of the IR instruction (a static function pointer)", norm(&v)));
                         continue;
                     }
+                    if from_item {
+                        notes.push(format!("{label}: `{}` is the address of an item (function / static)", norm(&v)));
+                        continue;
+                    }
+                }
+                if fields.is_empty() {
                     return Err(format!("{label}: the origin of the address `{}` baked into the code is not recognised", norm(&v)));
                 }
                 for f in fields {
@@ -640,7 +681,7 @@ fn lifetime(repo: &Path) -> Result<String, String> {
     let handle_holds = shared_is_arc && tf_field.is_some() && clones_arc;
 
     // ---- 3. what is cloned into the module
-    let mut all = ImplFns { cur: None, out: vec![] };
+    let mut all = ImplFns { cur: None, out: vec![], params: vec![] };
     all.visit_file(&cg);
     let body = |imp: &str, name: &str| -> Result<String, String> {
         let hits: Vec<_> = all
@@ -738,7 +779,7 @@ fn lifetime(repo: &Path) -> Result<String, String> {
 
     // ---- 4. who frees the code
     let mut sites = vec![];
-    let mut everything = ImplFns { cur: None, out: vec![] };
+    let mut everything = ImplFns { cur: None, out: vec![], params: vec![] };
     everything.visit_file(&cg);
     everything.visit_file(&pl);
     for (imp, name, block) in &everything.out {
